@@ -284,6 +284,13 @@ def shrOp (f : Fmt) (a : Limbs) (k : Int) (sgn : Bool) : Limbs :=
     (if sgn then List.replicate a.length (if isNeg f a then 2^f.w - 1 else 0) else zeros a.length)
   else shr f a k.toNat
 
+/-- `rep << cnl::constant<K>` (`_impl/wide-integer.h`, also the `K_c` literals, and `<<=` with a constant, which is routed
+through the binary operator): forwards `rep << K` with `K` of the constant's value type (`sgn`: that type is signed;
+`cnl::intmax_t` for the literals) — the whole count, not a narrowed one -/
+def shlConst (f : Fmt) (a : Limbs) (K : Int) (sgn : Bool) : Limbs := shlOp f a K sgn
+/-- `rep >> cnl::constant<K>` -/
+def shrConst (f : Fmt) (a : Limbs) (K : Int) (sgn : Bool) : Limbs := shrOp f a K sgn
+
 /-! ## division -/
 
 /-- loop of `eval_divide_by_single_limb` from the top limb down: (quotient limbs, `long_numerator`, `hi_part`) -/
